@@ -362,6 +362,14 @@ func certID(chain []byte) int {
 	return int(c.SerialNumber.Int64()) - 1
 }
 
+// leafNotAfter is the expiry of the certificate that is actually served (zero time if unparsable).
+func leafNotAfter(it *security.SecretItem) time.Time {
+	if c := leafOf(it.CertificateChain); c != nil {
+		return c.NotAfter
+	}
+	return time.Time{}
+}
+
 func leafOf(chain []byte) *x509.Certificate {
 	blk, _ := pem.Decode(chain)
 	if blk == nil {
